@@ -9,6 +9,21 @@ BASELINE = ("cd /repo && env -u PYCRAFT_VERIF /venv/bin/python -m pytest -ra -q 
             "--timeout=900 --continue-on-collection-errors")
 
 CHECKS = {
+    'C11': dict(
+        technique='TLA+ model of the play-state loop (SessionPlay.tla) explored exhaustively by TLC; every behaviour replayed '
+                  'into a real Connection under a deterministic scheduler with an independent scripted peer (S->I); long seeded '
+                  'histories at all 250 supported versions validated against the contract Trace_Play.tla by TLC (I->S)',
+        text='SessionPlay.tla models the batching write/read loop, the playing reactor (queued keep-alive echo, teleport '
+             'confirm from 107 / position echo before, spawned, disconnect = flush + close), generic packets and the exit '
+             'callback; TLC checks EchoFifo, DeliveredInOrder, SpawnedIffPosLook, DisconnectClean and termination on all '
+             'scripts up to length 5/6 in both version classes. Each behaviour is replayed against the real code (virtual '
+             'sockets, random read segmentation, compression on/off) and the frames the independent peer decoded are compared; '
+             'random histories of 60-420 packets (keep-alive ids at all VarInt/Long boundaries, unknown-id frames of random '
+             'content, known-unhandled packets) under every supported version are judged event by event by the contract in TLC.',
+        note='Trusted: TLC, the virtual socket/select/lock layer (semantics taken from real sockets), the peer codec, zlib. Packet '
+             'ids per version come from the code\'s tables (C07 pins them at releases). Single networking thread: schedules are '
+             'not the quantifier here (C12/C16).',
+        design='5/C11'),
     'C08': dict(
         technique='version records, derived tables and predicate matrices extracted from the running code and checked by '
                   'TLC ASSUMEs against TLA+ projections and rank order (T-mode); Versions.tla model of run-time extension / '
